@@ -30,9 +30,22 @@ impl<T> Elem for T where
 }
 
 /// Everything the driver needs from an update map.
-pub trait Map<T>: milhouse::UpdateMap<T> + PartialEq + Send + Sync + 'static {}
+pub trait Map<T>: milhouse::UpdateMap<T> + PartialEq + Send + Sync + 'static {
+    /// Backed by a `VecMap`: inserting key `k` allocates `k + 1` slots.
+    const VEC_BACKED: bool;
+}
 
-impl<T, U> Map<T> for U where U: milhouse::UpdateMap<T> + PartialEq + Send + Sync + 'static {}
+impl<T: Elem> Map<T> for vec_map::VecMap<T> {
+    const VEC_BACKED: bool = true;
+}
+
+impl<T: Elem> Map<T> for milhouse::update_map::MaxMap<vec_map::VecMap<T>> {
+    const VEC_BACKED: bool = true;
+}
+
+impl<T: Elem> Map<T> for std::collections::BTreeMap<usize, T> {
+    const VEC_BACKED: bool = false;
+}
 
 const HEX: &[u8; 16] = b"0123456789abcdef";
 
